@@ -184,6 +184,23 @@ t("Angle(..) private ctor (never)", "let _ = Angle({0});", [NUM], lambda a: Fals
 t("angle.0 private field (never)", "let _ = {0}.0;", [ANG], lambda a: False)
 t("angle * angle (never)", "let _ = {0} * {1};", [ANG, ANG], lambda a, b: False)
 t("angle * scalar", "let _ = {0} * 2.0;", [ANG], lambda a: True)
+# every Angle operator x (angle | bare number) right-hand side
+FNUM = ["1.0", "1.0f32"]
+t("angle % x", "let _ = ang() % {0};", [AN], isang)
+t("angle / x", "let _ = ang() / {0};", [AN], lambda a: a in FNUM)
+t("angle * x", "let _ = ang() * {0};", [AN], lambda a: a in FNUM)
+t("-angle", "let _: Angle = -{0};", [ANG], lambda a: True)
+t("angle == x", "let _ = ang() == {0};", [AN], isang)
+t("Affine::add angle", "let _ = Affine::add(&ang(), &{0});", [AN], isang)
+t("Affine::sub angle", "let _ = Affine::sub(&ang(), &{0});", [AN], isang)
+t("angle.lerp", "let _ = ang().lerp(&{0}, 0.5);", [AN], isang)
+t("Angle::from(number) (never)", "let _ = Angle::from({0});", [NUM], lambda a: False)
+t("number.into() angle (never)", "let _: Angle = {0}.into();", [NUM], lambda a: False)
+t("polar(radius, angle) radius", "let _ = polar({0}, ang());", [AN], lambda a: a in FNUM)
+t("angle.max", "let _ = ang().max({0});", [AN], isang)
+# matrix side vs dimension of the map it is tagged with (compile-time assertion inside transpose(): evaluated only when
+# code is generated, hence the [mono] mark - these programs are built, not just checked)
+t("[mono] NxN matrix of a DIM-d map .transpose()", "let _ = retrofire_core::math::mat::Matrix::<[[f32; {0}]; {0}], RealToReal<{1}, BA, BB>>::identity().transpose();", [["2", "3", "4"], ["2", "3"]], lambda n, d: int(n) >= int(d))
 # --- colours --------------------------------------------------------------------------------------------
 t("colorf.add", "let _ = cf::<{0}>().add(&cf::<{1}>());", [CS, CS], eq)
 t("colorf.sub", "let _ = cf::<{0}>().sub(&cf::<{1}>());", [CS, CS], eq)
